@@ -218,7 +218,8 @@ def n_random(tier):
 def random_case(rng, tier):
     if rng.random() < 0.8:
         allops = OPS + [("insert", "last", n) for n in NAMES] + [("replace", "last", n) for n in NAMES] + \
-            [("replace", "mid", n) for n in NAMES] + [("pop", "mid"), ("del_key", "first"), ("del_key", "last")]
+            [("replace", "mid", n) for n in NAMES] + [("pop", "mid"), ("del_key", "first"), ("del_key", "last")] + \
+            [("attr_new", n) for n in ("A", "a", "B", "Z9")] + [("attr_replace", "first", n) for n in NAMES] + [("attr_replace", "last", "A")]
         return {"kind": "ops", "ops": [list(rng.choice(allops)) for _ in range(rng.randint(5, 12))],
                 "norm": rng.random() < 0.5, "curves": rng.random() < 0.3}
     pool = ["A", "a", "", "B", "DEPT", "Gr", "GR", "x1"]
